@@ -61,11 +61,12 @@ def configs(prop, tier, seed):
             plan.append(("MC", VARIANTS[(seed + 1) % 2], 2, "exact"))
     else:
         plan = []
-        for v in VARIANTS:
-            plan.append(("T1", v, 4, "exact"))
-            plan.append(("T2", v, 3, "exact"))
+        for vi, v in enumerate(VARIANTS):
+            # (depth 4 on three cost models, depth 3 on the rest: the whole tier has to fit into an hour)
+            plan.append(("T1", v, 4 if vi < 3 else 3, "exact"))
+            plan.append(("T2", v, 3 if vi < 4 else 2, "exact"))
             plan.append(("T1", v, 3, "decimal"))
-            plan.append(("T2", v, 3, "decimal"))
+            plan.append(("T2", v, 3 if vi < 2 else 2, "decimal"))
         plan.append(("T3", VARIANTS[1], 3, "exact"))
         plan.append(("T3", VARIANTS[2], 3, "exact"))
         plan.append(("T3", VARIANTS[4], 3, "exact"))
